@@ -2,7 +2,7 @@
    Statements only; proofs in Proofs/ShiftProofs.v (index logic over Z/Q, axiom-free) and Proofs/ShiftC.v (values over C). *)
 From Coq Require Import ZArith QArith Qround Qabs List Bool Reals.
 From Coquelicot Require Import Complex.
-From PB Require Import Lib.PySlice Lib.Dft Lib.DftC Model.Shift Proofs.ShiftProofs Proofs.ShiftC Proofs.SnippetC.
+From PB Require Import Lib.PySlice Lib.Dft Lib.DftC Model.Shift Proofs.ShiftProofs Proofs.ShiftC Proofs.SnippetC Gen.GenShift Proofs.ShiftGen.
 Import ListNotations.
 Open Scope Z_scope.
 
@@ -78,6 +78,20 @@ Example C03_witness :
   shift_idx_flat true 10 [2; 3] [2] [(5 # 2)%Q; (-(7 # 3))%Q] = [0; 3; -3; 3; 7; 0; 3; 0; 3; 0; 3; 7; 10; 7; 10; 7; 10].
 Proof. vm_compute. reflexivity. Qed.
 
+(* tie to the source by translation (T6): the per-element logic of the zero-fill loop (sign test, floor / ceil, which slice is set to
+   zero), the accumulation of start / stop from (0, 0), the crop window and the sign of the phase ramp are the terms GENERATED from
+   transforms.time_shift on this run *)
+Theorem C03_generated_zero_range : forall N a st, zero_range N a = zr_of N (snd (gen_tshift_step st a)).
+Proof. exact zero_range_generated_t. Qed.
+Theorem C03_generated_accumulation : forall vals,
+  fold_left (fun st a => fst (gen_tshift_step st a)) vals gen_tshift_init = (acc_start vals, acc_stop vals).
+Proof. exact acc_generated. Qed.
+Theorem C03_generated_crop : forall early N ss sh vals r,
+  shift_idx early N ss sh vals = Some r -> sr_noop r = false -> sr_crop r = zr_of N (gen_tshift_crop (sr_start r) (sr_stop r) N).
+Proof. exact crop_generated. Qed.
+Theorem C03_generated_ramp_sign : forall N k s, - (fftfreq N k * s) = gen_tshift_sign * (fftfreq N k * s).
+Proof. exact tshift_ramp_generated. Qed.
+
 Print Assumptions C03_zero_exact.
 Print Assumptions C03_zero_wording.
 Print Assumptions C03_every_element.
@@ -87,3 +101,5 @@ Print Assumptions C03_model_meets_spec.
 Print Assumptions C03_integer_shift.
 Print Assumptions C03_tone.
 Print Assumptions C03_fractional_tone.
+Print Assumptions C03_generated_accumulation.
+Print Assumptions C03_generated_crop.
